@@ -401,6 +401,64 @@ def pipeline():
     })
 
 
+def obs_from_log(log):
+    """pair the begin / end probe records of consecutive steps -> (obs, clock consistent?)"""
+    obs, rp_same = [], True
+    for b, e in zip(log[0::2], log[1::2]):
+        if b[1] != "begin" or e[1] != "end" or [tx(v) if isinstance(v, float) else v for v in b[2:9]] != [tx(v) if isinstance(v, float) else v for v in e[2:9]]:
+            rp_same = False
+        for rec in (b, e):
+            same = all((x == y) or (isinstance(x, float) and math.isnan(x) and math.isnan(y)) for x, y in zip(rec[2:9], rec[9]))
+            rp_same = rp_same and same
+        obs.append([xj(b[2]), xj(b[3]), xj(b[4]), b[5], b[6], b[7], b[8], b[10], e[10]])
+    return obs, rp_same
+
+
+def run_other_mode(case, readout, det, tmpdir):
+    """the same readout / pipeline / (dirty) detector through Observation (sequential or dask path) or Calibration:
+    every execution of the pipeline inside the mode is one run -> {"runs": [{"obs", "rp_same"} …]}"""
+    import probes
+    import pyxel
+    from pyxel.observation import Observation, ParameterValues
+
+    n = len(readout.times)
+    probes.C02["plan"] = list(case["plan"][:n]) * 400  # the writer counts its calls: same plan for every run of the mode
+    mode = case["mode"]
+    if mode in ("observation-seq", "observation-dask"):
+        import dask
+
+        obs = Observation(parameters=[ParameterValues(key="detector.environment.temperature", values=[101.0, 102.0])],
+                          readout=readout, with_dask=(mode == "observation-dask"))
+        with dask.config.set(scheduler="synchronous"):
+            res = pyxel.run_mode(mode=obs, detector=det, pipeline=pipeline(), with_inherited_coords=True)
+            if hasattr(res, "load"):
+                res.load()
+    else:
+        import numpy as np
+        from pyxel.calibration import Algorithm, Calibration
+        from pyxel.pipelines import FitnessFunction
+
+        rows, cols = det.geometry.shape
+        tf = os.path.join(tmpdir, "target.npy")
+        np.save(tf, np.zeros((rows, cols)))
+        cal = Calibration(
+            target_data_path=[tf], fitness_function=FitnessFunction(func="pyxel.calibration.fitness.sum_of_abs_residuals"),
+            algorithm=Algorithm(type="sade", generations=1, population_size=8),
+            parameters=[ParameterValues(key="detector.environment.temperature", values="_", boundaries=(100.0, 200.0))],
+            readout=readout, result_type="pixel", result_fit_range=(0, rows, 0, cols), target_fit_range=(0, rows, 0, cols),
+            pygmo_seed=1, num_islands=1, num_evolutions=1,
+        )
+        pyxel.run_mode(mode=cal, detector=det, pipeline=pipeline())
+    log = list(probes.LOG)
+    if not log or len(log) % (2 * n):
+        return {"error": "Other:log-not-whole-runs", "stage": "run", "calls": len(log), "msg": f"{len(log)} probe records for runs of {n} steps", "op_ok": []}
+    runs = []
+    for k in range(0, len(log), 2 * n):
+        obs, same = obs_from_log(log[k:k + 2 * n])
+        runs.append({"obs": obs, "rp_same": same})
+    return {"runs": runs, "op_ok": []}
+
+
 def run_impl(case):
     """-> {"error": kind, "stage": s, "calls": n, "op_ok": [...]} or {"obs": [...], "op_ok": [...], "rp_same": b}"""
     import probes
@@ -442,22 +500,17 @@ def run_impl(case):
             except Exception:  # noqa: BLE001
                 out["op_ok"].append(False)
         try:
+            if case.get("mode"):
+                return run_other_mode(case, readout, det, tmpdir)
             pyxel.run_mode(mode=Exposure(readout=readout), detector=det, pipeline=pipeline())
         except Exception as e:  # noqa: BLE001
             out.update({"error": common.err_kind(e), "stage": "run", "calls": len(probes.LOG), "msg": str(e)[:200]})
             return out
         log = list(probes.LOG)
-        obs, rp_same = [], True
         if len(log) % 2:
             out.update({"error": "Other:odd-log", "stage": "run", "calls": len(log)})
             return out
-        for b, e in zip(log[0::2], log[1::2]):
-            if b[1] != "begin" or e[1] != "end" or [tx(v) if isinstance(v, float) else v for v in b[2:9]] != [tx(v) if isinstance(v, float) else v for v in e[2:9]]:
-                rp_same = False
-            for rec in (b, e):
-                same = all((x == y) or (isinstance(x, float) and math.isnan(x) and math.isnan(y)) for x, y in zip(rec[2:9], rec[9]))
-                rp_same = rp_same and same
-            obs.append([xj(b[2]), xj(b[3]), xj(b[4]), b[5], b[6], b[7], b[8], b[10], e[10]])
+        obs, rp_same = obs_from_log(log)
         out.update({"obs": obs, "rp_same": rp_same})
         return out
     finally:
@@ -508,6 +561,16 @@ def xf(j):
 
 def property_predicate(case, impl):
     """-> None or (key, text)"""
+    if "runs" in impl:  # Observation / Calibration: every execution of the pipeline is judged like an exposure
+        for k, run in enumerate(impl["runs"]):
+            why = property_predicate_one(case, {"obs": run["obs"], "rp_same": run["rp_same"], "op_ok": []})
+            if why:
+                return (why[0], f"{case['mode']}, pipeline execution #{k}: {why[1]}")
+        return None
+    return property_predicate_one(case, impl)
+
+
+def property_predicate_one(case, impl):
     if case["src"]["form"] == "both":
         if "error" in impl and impl["calls"] == 0:
             return None
@@ -560,13 +623,27 @@ def canon_impl(impl):
 
 
 # ------------------------------------------------------------------ check
-def gen_float(rng):
-    """valid schedule of arbitrary (non-dyadic) doubles: the clock must match Lean's binary64 `Float` bit for bit"""
-    n = rng.choice([1, 2, 3, 5, 8])
+def gen_float(rng, kind=None):
+    """valid schedule of arbitrary (non-dyadic) doubles: the clock must match Lean's binary64 `Float` bit for bit.
+    kind 'nano': nanosecond-scale irregular sampling; 'near-regular': steps equal up to a relative 1e-9 … 1e-5;
+    'linspace': regular decimal sampling (steps differ in the last bits only)"""
+    n = rng.choice([1, 2, 3, 5, 8]) if kind is None else rng.choice([2, 3, 4, 6])
     start = rng.choice([0.0, rng.uniform(-50, 50), rng.uniform(-1e-3, 1e-3), rng.uniform(-1e6, 1e6)])
+    if kind == "nano":
+        start = rng.choice([0.0, 1e-9, rng.uniform(0, 3e-9), -2e-9])
+    elif kind in ("near-regular", "linspace"):
+        start = rng.choice([0.0, 0.0, rng.uniform(-2, 2)])
+    base = rng.choice([1.0, 0.1, 2.5, 1e-3, 60.0])
     t, ts = start, []
-    for _ in range(n):
-        t = t + rng.choice([rng.uniform(1e-9, 1e-3), rng.uniform(0.01, 10.0), rng.uniform(1.0, 1e5), 0.1, 1 / 3])
+    for i in range(n):
+        if kind == "nano":
+            t = t + rng.choice([1e-9, 2e-9, 4e-9, 6e-9, rng.uniform(1e-10, 9e-9)])
+        elif kind == "near-regular":
+            t = t + base * (1.0 + rng.choice([-1, 1]) * 10.0 ** rng.uniform(-9, -5.3) * rng.choice([0, 1, 1]))
+        elif kind == "linspace":
+            t = start + base * (i + 1)
+        else:
+            t = t + rng.choice([rng.uniform(1e-9, 1e-3), rng.uniform(0.01, 10.0), rng.uniform(1.0, 1e5), 0.1, 1 / 3])
         if t == 0.0 or (ts and t <= ts[-1]) or t <= start:
             t = math.nextafter(max(ts[-1] if ts else start, start), math.inf)
             if t == 0.0:
@@ -575,6 +652,47 @@ def gen_float(rng):
     c = base_case(rng, start, ts, form=rng.choice(["seq", "tuple", "file_npy", "expr_list"]))
     c["float"] = True
     return c
+
+
+def gen_modes(rng, mode):
+    """a valid schedule run through Observation / Calibration on a detector that already holds content"""
+    if mode == "calibration":
+        # (time-domain calibration needs target cubes: the default one-readout schedule [1.0] is used, with a start time)
+        c = base_case(rng, rng.choice([0.0, 0.25, -2.5, 0.875]), [1.0], nd=rng.random() < 0.8, form="seq", plan_len=1)
+        c["src"] = {"form": "default", "values": []}
+    else:
+        n = rng.choice([1, 2, 3])
+        start, ts = gen_increasing(rng, n)
+        c = base_case(rng, start, ts, nd=rng.random() < 0.8, form=rng.choice(["seq", "tuple"]))
+    c["mode"] = mode
+    c["detector"] = "CCD"
+    c["prior"]["tokens"][3] = rng.randrange(1, 900)  # the detector holds pixel charge before the run
+    for i, b in enumerate(BUCKETS):
+        if c["prior"]["tokens"][i] is None and rng.random() < 0.5:
+            c["prior"]["tokens"][i] = rng.randrange(1, 900)
+    return c
+
+
+def gen_tiny_dyadic(rng):
+    """exact (dyadic) schedules at the 2^-30 … 2^-34 s scale and nearly regular dyadic ones: compared as rationals"""
+    n = rng.choice([2, 3, 4, 5])
+    if rng.random() < 0.5:
+        u = 2.0 ** -rng.choice([30, 32, 34])
+        k, ks = 0, []
+        for _ in range(n):
+            k += rng.randrange(1, 9)
+            ks.append(k)
+        start, ts = rng.choice([0.0, -u, -3 * u]), [v * u for v in ks]
+    else:
+        d, eps = rng.choice([1.0, 0.5, 4.0]), 2.0 ** -rng.choice([20, 24, 28])
+        start, t, ts = rng.choice([0.0, -1.0, 0.25]), 0.0, []
+        t = start
+        for _ in range(n):
+            t += d + rng.choice([-1, 0, 1, 2]) * eps
+            ts.append(t)
+        if any(v == 0 for v in ts):
+            ts = [v + 8.0 for v in ts]
+    return base_case(rng, start, ts, form=rng.choice(["seq", "tuple", "file_npy"]))
 
 
 def build_cases(rng, tier):
@@ -593,6 +711,14 @@ def build_cases(rng, tier):
         cases.append(("nonfinite", gen_nonfinite_valid(rng)))
     for _ in range(40 * k):
         cases.append(("float", gen_float(rng)))
+    for kind in ("nano", "nano", "near-regular", "near-regular", "linspace"):
+        for _ in range(6 * k):
+            cases.append(("float", gen_float(rng, kind)))
+    for _ in range(10 * k):
+        cases.append(("valid", gen_tiny_dyadic(rng)))
+    for mode, cnt in (("observation-seq", 10), ("observation-dask", 8), ("calibration", 3)):
+        for _ in range(cnt * k):
+            cases.append(("modes", gen_modes(rng, mode)))
     return cases
 
 
@@ -617,7 +743,10 @@ def body(ck: common.Check):
         if "bad" in ans:
             raise common.InfraError(f"driver rejected request: {ans} for {case}")
         public = {k: v for k, v in case.items() if not k.startswith("_")}
-        steps = len(impl.get("obs", []))
+        steps = len(impl["runs"][0]["obs"]) if "runs" in impl else len(impl.get("obs", []))
+        if "mode" in case:
+            ck.count("mode=" + case["mode"])
+            ck.count("mode-pipeline-executions", len(impl.get("runs", [])))
         ck.case(public, nontrivial=(steps >= 2 or "error" in impl), stream=stream)
         ck.count("form=" + case["src"]["form"])
         ck.count("outcome=" + (impl.get("error", "ok") + ("@" + impl["stage"] if "stage" in impl else "")))
@@ -631,6 +760,12 @@ def body(ck: common.Check):
         replay = {"case": public, "impl": impl, "model": ans["model"]}
         if why is not None:
             ck.violation(why[0], why[1], replay)
+        if "runs" in impl:
+            for run in impl["runs"]:
+                if {"obs": run["obs"]} != ans["model"]:
+                    ck.disagreement(stream, public, {"obs": run["obs"]}, ans["model"])
+                    break
+            continue
         mine, model = canon_impl(impl), ans["model"]
         if stream == "float" and "obs" in mine and "obs" in model:
             # arbitrary doubles: the rational model's `t − prev` / `start + t` are the *unrounded* values; these two
@@ -650,7 +785,9 @@ def body(ck: common.Check):
                "(zero first/later/last, equal, decreasing, start ≥ first, NaN anywhere, inf inside, empty, both sources), setter "
                "calls after construction; destructive / non-destructive; random per-step writes to all six buckets (set, "
                "accumulate, clear, charge clusters); prior content: direct fill and/or an earlier run on the same detector; "
-               "a stream of arbitrary (non-dyadic) doubles whose time steps / absolute times are compared bit for bit with the "
+               "the same sessions through Observation (sequential and dask path) and Calibration on a detector that already holds pixel "
+               "charge, every pipeline execution inside the mode judged like an exposure; nanosecond-scale, 2^-30 s-scale and nearly "
+               "regular schedules (steps equal up to 1e-9…1e-5 relative); a stream of arbitrary (non-dyadic) doubles whose time steps / absolute times are compared bit for bit with the "
                "same `steps` evaluated at Lean's binary64 Float; non-trivial = ≥ 2 steps or a rejection; distinct by canonical JSON")
     ck.assumptions = [
         "valid schedule (DESIGN 6b): non-empty, every time ≠ 0, start < every time (NaN is not earlier than anything), strictly increasing; +inf as last time is valid",
